@@ -86,7 +86,9 @@ def gen_record(rng):
     maybe("which", lambda: rng.choice(VARNAMES), 0.35)
     maybe("sel", lambda: rng.choice([".n", "(+ .i 1)", ".s", "(size .arr)", ".obj.a", "(concat .s \"!\")", ".", "(first .strs)", "(* .n 2)",
                                      # a selection text that parses a further selection text, also taken from the record
-                                     "(parse_selection (default .inner \".n\"))", "(push [] (parse_selection .inner) .i)"]), 0.35)
+                                     "(parse_selection (default .inner \".n\"))", "(push [] (parse_selection .inner) .i)",
+                                     # a selection text may carry a name (`<selection>=<name>`); the name is not the selection
+                                     ".n=.i", ".i", ".i=.n", ".s=.n", ".n", "(+ .i 1)=.n"]), 0.35)
     maybe("inner", lambda: rng.choice([".i", ".s", "(size .arr)", "(+ .n 1)", ".b", "(parse_selection \".i\")"]), 0.4)
     return r
 
